@@ -34,6 +34,7 @@ type c17Scenario struct {
 	Modules    []c17Module       `json:"modules"`    // in some walk order, root first
 	Plugins    []c17Plugin       `json:"plugins"`
 	Probe      string            `json:"probe"` // "" main stream; "D33": known-finding probe
+	OutputFile string            `json:"outputFile,omitempty"` // --output-file (only the main module is generated; not in the plan model)
 }
 
 type c17Module struct {
@@ -43,6 +44,7 @@ type c17Module struct {
 
 type c17Plugin struct {
 	Name  string `json:"name"`
+	Inst  string `json:"inst,omitempty"` // several plugins may share a name: -p "<name> --inst=<inst>"
 	Fail  bool   `json:"fail"`  // answers generate with an exception
 	Files []kv2  `json:"files"` // otherwise these
 }
@@ -50,6 +52,13 @@ type c17Plugin struct {
 type kv2 struct {
 	K string `json:"k"`
 	V string `json:"v"`
+}
+
+func (p c17Plugin) key() string {
+	if p.Inst != "" {
+		return p.Name + "@" + p.Inst
+	}
+	return p.Name
 }
 
 func (s c17Scenario) line() string {
@@ -122,8 +131,15 @@ func runC17Scenario(s c17Scenario, idx int) (c17Result, string) {
 			gen = fakeStep{out: whole(goodGen(files))}
 		}
 		fs := fakeScript{steps: map[string]fakeStep{"hs": {out: whole(goodHs(p.Name, true))}, "gen": gen, "bye": {out: whole(goodBye())}}}
-		os.WriteFile(filepath.Join(scripts, p.Name+".script"), []byte(fs.text()), 0o644)
-		args = append(args, "-p", p.Name)
+		os.WriteFile(filepath.Join(scripts, p.key()+".script"), []byte(fs.text()), 0o644)
+		if p.Inst != "" {
+			args = append(args, "-p", p.Name+" --inst="+p.Inst)
+		} else {
+			args = append(args, "-p", p.Name)
+		}
+	}
+	if s.OutputFile != "" {
+		args = append(args, "--output-file", s.OutputFile)
 	}
 	args = append(args, filepath.Join(sandbox, s.Main))
 	before := snapshot(sandbox)
@@ -166,8 +182,8 @@ func runC17Scenario(s c17Scenario, idx int) (c17Result, string) {
 	sort.Strings(res.written)
 	res.started = map[string]bool{}
 	for _, p := range s.Plugins {
-		if _, err := os.Stat(filepath.Join(scripts, p.Name+".log")); err == nil {
-			res.started[p.Name] = true
+		if _, err := os.Stat(filepath.Join(scripts, p.key()+".log")); err == nil {
+			res.started[p.key()] = true
 		}
 	}
 	os.RemoveAll(sandbox)
@@ -336,9 +352,18 @@ func c17Generate(r *rng.R, n int) []c17Scenario {
 		var raw []string
 		for k := 0; k < nplug; k++ {
 			p := c17Plugin{Name: pluginNames[k]}
+			twin := k > 0 && r.Chance(1, 5) // the same plugin given twice with different arguments
+			if twin {
+				p.Name, p.Inst = pluginNames[0], fmt.Sprint(k)
+			}
 			if r.Chance(1, 10) {
 				p.Fail = true
 			} else {
+				if twin && len(raw) > 0 && r.Chance(2, 3) {
+					path := raw[r.Intn(len(raw))]
+					p.Files = append(p.Files, kv2{path, fmt.Sprintf("%s#%d", p.key(), len(p.Files))})
+					raw = append(raw, path)
+				}
 				for f := r.Intn(4); f > 0; f-- {
 					var path string
 					switch {
@@ -370,7 +395,7 @@ func c17Generate(r *rng.R, n int) []c17Scenario {
 					if dup || (!rawEqual && !isDotDot && path != "main/main.go" && !usable(path, taken)) {
 						continue
 					}
-					p.Files = append(p.Files, kv2{path, fmt.Sprintf("%s#%d", p.Name, len(p.Files))})
+					p.Files = append(p.Files, kv2{path, fmt.Sprintf("%s#%d", p.key(), len(p.Files))})
 					raw = append(raw, path)
 					if !isDotDot {
 						taken[cleanRel(path)] = true
@@ -379,11 +404,17 @@ func c17Generate(r *rng.R, n int) []c17Scenario {
 			}
 			s.Plugins = append(s.Plugins, p)
 		}
-		s.Label = fmt.Sprintf("layout%d mods=%d fail=%d root=%q out=%q plugins=%d", layout, nm, len(failing), s.ThriftRoot, s.Out, nplug)
+		if r.Chance(1, 8) {
+			s.OutputFile = outputFileShapes[r.Intn(len(outputFileShapes))]
+		}
+		s.Label = fmt.Sprintf("layout%d mods=%d fail=%d root=%q out=%q plugins=%d output-file=%q", layout, nm, len(failing), s.ThriftRoot, s.Out, nplug, s.OutputFile)
 		out = append(out, s)
 	}
 	return out
 }
+
+// --output-file values: main.go only checks the extension; the file must still land below the output directory.
+var outputFileShapes = []string{"all.go", "./x.go", "sub/dir/x.go", "../x.go", "../../x.go", "../../../../x.go", "a/../../../x.go", "a/b/../../../../x.go"}
 
 var d33Once sync.Once
 
@@ -462,7 +493,10 @@ func c17Check(c *checker, scs []c17Scenario, how string) {
 			continue
 		}
 
-		if impl != model {
+		if s.OutputFile != "" {
+			c.rep.Hist("output-file-shape", s.OutputFile)
+		}
+		if impl != model && s.OutputFile == "" {
 			c.rep.Disagree(report.Disagreement{Kind: "C17 thriftrw vs generate plan (" + how + ")", Input: input, Impl: impl + " | stderr: " + firstLine(res.stderr), Model: model})
 		}
 		// ---- implementation-side oracles ----
@@ -499,8 +533,8 @@ func c17Check(c *checker, scs []c17Scenario, how string) {
 			c.oracle("C17 conflict not reported", input, impl, "two plugin paths name the same file")
 		}
 		anyFail := false
-		for _, m := range s.Modules {
-			anyFail = anyFail || m.Fails
+		for k, m := range s.Modules {
+			anyFail = anyFail || (m.Fails && (k == 0 || s.OutputFile == ""))
 		}
 		for _, p := range s.Plugins {
 			anyFail = anyFail || p.Fail
